@@ -147,10 +147,6 @@ class Index:
                     prev()
                 return match, skipped
 
-            # matches are sorted descending: the scan ends below the smallest one
-            stop = compiled_matches[-1]
-            if since:
-                stop += since
             match, skipped = next_match()
         else:
             match = None
@@ -191,8 +187,6 @@ class Index:
                             continue
                         else:
                             break
-                    elif key < stop:
-                        break
 
                     event_id = key[-32:]
                     if event_id in events:
